@@ -20,11 +20,11 @@ Mech3EqualsSem ==
   done # <<>> => \A d1 \in 1..2, d2 \in 2..3 :
      LET q == MQ(done[1], d1, d2)
      IN \A k \in 1..2 : Mech3Sound(q, RefW, k) /\ Mech3Complete(q, RefW, k) /\ Mech3NoDup(q, RefW, k)
-\* stage B4: for_all over a plain universal variable (or an attribute of it), alone or conjoined with conditions on the
-\* free variable; first evaluation and re-evaluation
+\* stage B4: for_all over a universal variable, the solutions of a sub-query over it, or an attribute of either, alone or
+\* conjoined with conditions on the free variable; first evaluation and re-evaluation
 RECURSIVE ForAllPlain(_)
 ForAllPlain(c) ==
-  CASE c.k = "forall" -> (c.ue.k = "var" \/ (c.ue.k = "attr" /\ c.ue.e.k = "var")) /\ ForAllPlain(c.c)
+  CASE c.k = "forall" -> (c.ue.k \in {"var", "sub"} \/ (c.ue.k = "attr" /\ c.ue.e.k \in {"var", "sub"})) /\ ForAllPlain(c.c)
     [] c.k \in {"and", "or"} -> ForAllPlain(c.l) /\ ForAllPlain(c.r)
     [] c.k = "not" -> ForAllPlain(c.c)
     [] OTHER -> TRUE
